@@ -10,11 +10,26 @@ A. Channel table (oracle on the implementation, marker non-interference): for ev
    (one per call site); anything else is a violation.
 B. '_' names: never resolved from client objects (with or without guards); restricted expressions naming _attributes are
    rejected.
+D. Overlapping renderings: every channel again while the SAME compiled template object is rendered a second time, for
+   another caller with other guards (none at all / a guard that allows everything), at every point of the guarded rendering
+   at which a guard is asked or a client attribute is read — as a nested call on the same thread (what a method of an item
+   or a security policy does) and from another thread (the deterministic equivalent of a pre-emption there).  Nothing one
+   rendering leaves on the shared compiled tags may change what the other one's guard mediates: expected = the rendering of
+   a fresh template object that nobody interrupts.
+E. Guarded collections against a reference: random dtml-in loops (objects / strings / (key, value) pairs; sort, reverse,
+   sort_expr, reverse_expr, batches, mapping-free) and random dtml-tree renderings (random shapes, branches as list / tuple,
+   branches= / branches_expr=, sort, reverse, assume_children, single, prefix, random sets of open nodes given by the
+   tree-s cookie or expand_all) with a random set of refused items: the displayed sequence must be exactly the reference
+   one — allowed items in the order the author asked for, filtered → sorted → reversed (tree) resp. sorted → reversed →
+   window → filtered (in) — computed here from the option's documented meaning; without skip_unauthorized a refused item
+   that would be displayed must raise Unauthorized.
 C. Correspondence: random programs with a recording guard, random refused (object, attribute) pairs and refused items,
    skip_unauthorized: results, call traces AND the ordered guard log (attribute guard / item guard events) of the real
    classes vs the Lean interpreter model.
 """
 import json
+import re
+import threading
 
 import common
 import interp
@@ -59,6 +74,67 @@ class SpyMap(Spy):
         return list(object.__getattribute__(self, '_keys'))
 
 
+class HookLog(list):
+    """event log that runs `hook` once, right after event number `at` was recorded (i.e. inside the guard / the attribute
+    read that records it)"""
+    hook = None
+    at = -1
+    fired = False
+
+    def append(self, ev):
+        list.append(self, ev)
+        if self.hook is not None and len(self) - 1 == self.at:
+            h, self.hook = self.hook, None
+            self.fired = True
+            h()
+
+
+class Node(Spy):
+    """item of a loop / node of a tree.  Data attributes (label, the branches methods) are spied; id, url and sort key are
+    class level: the tags read those with plain getattr (ids / the finding C05-sort-key), which is not what parts D / E judge"""
+
+    def __init__(self, oid, log, label, key=0, kids=(), container=list, **attrs):
+        def branches():
+            return container(object.__getattribute__(self, '_kids'))
+        Spy.__init__(self, oid, log, label=label, tpValues=branches, kids=branches, **attrs)
+        object.__setattr__(self, '_key', key)
+        object.__setattr__(self, '_kids', list(kids))
+
+    @property
+    def key(self):
+        return object.__getattribute__(self, '_key')
+
+    def tpId(self):
+        return 'n%d' % object.__getattribute__(self, '_oid')
+
+
+class Response:
+    def __init__(self):
+        self.cookies = {}
+
+    def setCookie(self, name, value, **kw):
+        self.cookies[name] = value
+
+
+def tree_ns(**kw):
+    import TreeDisplay  # noqa: F401  registers the dtml-tree tag
+    return dict(kw, URL='http://host/app/page', RESPONSE=Response())
+
+
+def item_key(v):
+    """what the recording item guard identifies an item by: spied objects by their number, strings by value, (key, value)
+    pairs by their key, dictionaries (dtml-in … mapping) by their 'ident' entry"""
+    if isinstance(v, Spy):
+        return object.__getattribute__(v, '_oid')
+    if isinstance(v, tuple) and len(v) == 2 and isinstance(v[0], str):
+        return ('pair', v[0])
+    if isinstance(v, str):
+        return ('str', v)
+    if isinstance(v, dict) and 'ident' in v:
+        return ('map', v['ident'])
+    return None
+
+
 def guarded_class(log, denied, denied_items):
     from DocumentTemplate import HTML
     from zExceptions import Unauthorized
@@ -78,7 +154,8 @@ def guarded_class(log, denied, denied_items):
         def guarded_getitem(self, ob, index):
             log.append(('gitem', index))
             v = ob[index]
-            if isinstance(v, Spy) and object.__getattribute__(v, '_oid') in denied_items:
+            k = item_key(v)
+            if k is not None and k in denied_items:
                 raise Unauthorized('item')
             return v
     return Guarded
@@ -142,6 +219,34 @@ def channels():
                                lambda log, m, n: (None, {'o': Spy(9, log, things=[Spy(1, log, pub=m), Spy(4, log, pub='ok'), Spy(6, log, pub=n)])}, set(), {1, 6}), None)
     ch['with-only-nested-in-skip'] = ('<dtml-with o only><dtml-with p only><dtml-in things skip_unauthorized>[<dtml-var pub>]</dtml-in></dtml-with></dtml-with>',
                                       lambda log, m, n: (None, {'o': Spy(9, log, p=Spy(8, log, things=[Spy(1, log, pub=m), Spy(4, log, pub='ok')]))}, set(), {1}), None)
+    # dtml-tree: the branches method is read through the attribute guard, every branch through the item guard — whatever
+    # order the author asks for, whichever way the branches are named, also below the first level (expand_all)
+    def forest(log, m, n, container=list):
+        return Node(9, log, 'root', kids=[
+            Node(1, log, m, key=2, kids=[Node(11, log, 'below-' + m, key=1)], container=container),
+            Node(4, log, 'ok', key=3),
+            Node(7, log, 'zz', key=1, kids=[Node(6, log, n, key=9), Node(10, log, 'deep', key=5), Node(12, log, 'deeper', key=7)],
+                 container=container),
+            Node(8, log, 'last', key=0)], container=container)
+    body = '{<dtml-var label>}'
+    for opt in ('', 'sort=key', 'reverse', 'sort=key reverse', 'branches=kids', 'branches_expr="kids()" sort=key',
+                'assume_children=1 reverse', 'single nowrap sort=key'):
+        for deep in (0, 1):
+            for cont in (list, tuple):
+                if cont is tuple and (deep or 'sort' not in opt and 'reverse' not in opt):
+                    continue
+                tag = ' %s%s%s' % (opt, ' expand_all' if deep else '', ' (branches in a tuple)' if cont is tuple else '')
+                mk = (lambda deep, cont: lambda log, m, n: (None, tree_ns(o=forest(log, m, n, cont), **({'expand_all': 1} if deep else {})),
+                                                          set(), {1, 6}))(deep, cont)
+                ch['tree-skip' + tag] = ('<dtml-tree o %s skip_unauthorized>%s</dtml-tree>' % (opt, body), mk, None)
+                ch['tree-refused-item' + tag] = (T % ('<dtml-tree o %s>%s</dtml-tree>' % (opt, body)), mk, None)
+    ch['tree-branches-attr'] = (T % ('<dtml-tree o>%s</dtml-tree>' % body),
+                                lambda log, m, n: (None, tree_ns(o=forest(log, m, n)), {(9, 'tpValues')}, set()), None)
+    ch['tree-branches-attr below'] = (T % ('<dtml-tree o>%s</dtml-tree>' % body),
+                                      lambda log, m, n: (None, tree_ns(o=forest(log, 'x', m), expand_all=1), {(7, 'tpValues')}, set()), None)
+    ch['tree-body-attr'] = ('<dtml-tree o>[' + T % '<dtml-var secret>' + '|<dtml-var label>]</dtml-tree>',
+                            lambda log, m, n: (None, tree_ns(o=Node(9, log, 'root', kids=[Node(1, log, 'a', secret=m), Node(3, log, 'b', secret=n)])),
+                                               {(1, 'secret'), (3, 'secret')}, set()), None)
     # the channels the code reads with plain getattr / a different item guard: known findings
     ch['sequence-var'] = ('<dtml-in l>[' + T % '<dtml-var sequence-var-secret>' + ']</dtml-in>',
                           lambda log, m, n: (None, {'l': [objs(log, m)]}, {(1, 'secret')}, set()), 'C05-sequence-var')
@@ -159,63 +264,327 @@ def channels():
     return ch
 
 
-def render_channel(name, src, build, m, n, warm=False):
-    log = []
+MODES = (None, 'warm', 'warm-other')
+MODE_TEXT = {None: '', 'warm': ' (after an unguarded rendering)', 'warm-other': ' (after a rendering under a guard that allows everything)'}
+
+
+def mode_text(mode):
+    if isinstance(mode, tuple):
+        return ' (while event %d of the guarded rendering is recorded, the same compiled template is rendered %s, %s)' % (
+            mode[1], 'by a nested call' if mode[2] == 'nested' else 'by another thread',
+            'without guards' if mode[3] == 'plain' else 'under a guard that allows everything')
+    return MODE_TEXT[mode]
+
+
+def render_channel(name, src, build, m, n, mode=None):
+    """mode: None — a fresh template object, rendered once;
+             'warm' / 'warm-other' — the same compiled template is first rendered in a context WITHOUT guards (as a sub-template
+                 of a plain template) / under a guard that allows everything, then with its own guards: nothing of the first
+                 rendering may weaken the second;
+             ('overlap', k, 'nested' | 'thread', 'plain' | 'other-guard') — that other rendering happens WHILE the guarded one
+                 runs: when its event number k (a guard call / a spied read) is recorded"""
+    from DocumentTemplate import HTML
+    log = HookLog()
     client, ns, denied, denied_items = build(log, m, n)
     cls = guarded_class(log, denied, denied_items)
     try:
         t = cls(src)
-        if warm:
-            # the same compiled template is first rendered in a context WITHOUT guards (as a sub-template of a plain
-            # template), then with its own guards: nothing of the first rendering may weaken the second
-            from DocumentTemplate import HTML
+        if mode in ('warm', 'warm-other'):
+            wrapper = HTML if mode == 'warm' else guarded_class([], set(), set())
             try:
-                HTML('<dtml-var inner>')(client, dict(ns, inner=t))
+                wrapper('<dtml-var inner>')(client, dict(ns, inner=t))
             except Exception:  # noqa
                 pass
             del log[:]
+        elif mode:
+            _, k, how, who = mode
+
+            def other():
+                log2 = []
+                client2, ns2, _d, _di = build(log2, 'other-1', 'other-2')
+                wrapper = HTML if who == 'plain' else guarded_class(log2, set(), set())
+                try:
+                    wrapper('<dtml-var inner>')(client2, dict(ns2, inner=t))
+                except Exception:  # noqa
+                    pass
+
+            def interfere():
+                if how == 'thread':
+                    th = threading.Thread(target=other)
+                    th.start()
+                    th.join(60)
+                else:
+                    other()
+            log.at, log.hook = k, interfere
         out = t(client, ns)
     except Exception as e:  # noqa
         out = 'RAISED %s' % type(e).__name__
+    log.hook = None
     return out, log, denied, denied_items
 
 
+def read_problems(log):
+    """every attribute read of a spied object must have been asked of the guard; keys of record-like objects are never read"""
+    problems = []
+    asked = {(ev[1], ev[2]) for ev in log if ev[0] == 'guard'}
+    for ev in log:
+        # a probe like hasattr() may touch the attribute before the guard is asked; what matters is that the guard IS
+        # asked for everything that is read (whether the refused value then matters is the marker comparison)
+        if ev[0] == 'read' and (ev[1], ev[2]) not in asked:
+            problems.append(('unguarded-read:' + ev[2], 'attribute %r of object %d was read without the guard ever being asked' % (ev[2], ev[1])))
+        if ev[0] == 'read-item':
+            problems.append(('unguarded-item', 'key %r of the record-like object %d was read as an item (no guard mediates that read)' % (ev[2], ev[1])))
+    return problems
+
+
+def judge(res, name, src, finding, problems, extra=None):
+    # reading the sort key of every element with plain getattr is the known finding C05-sort-key, whatever else the channel tests
+    if 'sort' in src:
+        sort_reads = [p for p in problems if p[0] == 'unguarded-read:pub']
+        if sort_reads:
+            res.known_hits.setdefault('C05-sort-key', {'channel': name, 'source': src, 'problems': sorted({p[1] for p in sort_reads})[:3]})
+            problems = [p for p in problems if p[0] != 'unguarded-read:pub']
+    texts = sorted({p[1] for p in problems})
+    if texts:
+        if finding:
+            res.known_hits.setdefault(finding, {'channel': name, 'source': src, 'problems': texts[:3]})
+        else:
+            res.oracle_fail.append({'case': dict({'channel': name, 'source': src}, **(extra or {})), 'what': '; '.join(texts[:4])})
+    elif finding:
+        res.count('finding_not_reproduced=' + finding)
+
+
 def part_a(res):
-    for (name, (src, build, finding)), warm in [(c, w) for c in channels().items() for w in (False, True)]:
-        runs = [render_channel(name, src, build, m, n, warm) for m, n in ((MARK_A, MARK_B), (MARK_B, MARK_A), ('', MARK_A), (MARK_A, ''))]
+    for (name, (src, build, finding)), mode in [(c, w) for c in channels().items() for w in MODES]:
+        runs = [render_channel(name, src, build, m, n, mode) for m, n in ((MARK_A, MARK_B), (MARK_B, MARK_A), ('', MARK_A), (MARK_A, ''))]
         res.evaluations += 1
-        res.nt(('channel', name, warm))
-        name = name + (' (after an unguarded rendering)' if warm else '')
+        res.nt(('channel', name, mode))
+        name = name + mode_text(mode)
         problems = []          # (kind, text)
         outs = [r[0] for r in runs]
         if len(set(outs)) != 1:
             problems.append(('leak', 'the output depends on data the guard refuses: %r vs %r' % (outs[0], [o for o in outs if o != outs[0]][0])))
         if any('MARKER' in o for o in outs):
             problems.append(('leak', 'refused data reached the output: %r' % ([o for o in outs if 'MARKER' in o][0],)))
-        for out, log, denied, denied_items in runs:
-            asked = {(ev[1], ev[2]) for ev in log if ev[0] == 'guard'}
-            for ev in log:
-                # a probe like hasattr() may touch the attribute before the guard is asked; what matters is that the guard IS
-                # asked for everything that is read (whether the refused value then matters is the marker comparison above)
-                if ev[0] == 'read' and (ev[1], ev[2]) not in asked:
-                    problems.append(('unguarded-read:' + ev[2], 'attribute %r of object %d was read without the guard ever being asked' % (ev[2], ev[1])))
-                if ev[0] == 'read-item':
-                    problems.append(('unguarded-item', 'key %r of the record-like object %d was read as an item (no guard mediates that read)' % (ev[2], ev[1])))
-            break
-        # reading the sort key of every element with plain getattr is the known finding C05-sort-key, whatever else the channel tests
-        if 'sort' in src:
-            sort_reads = [p for p in problems if p[0] == 'unguarded-read:pub']
-            if sort_reads:
-                res.known_hits.setdefault('C05-sort-key', {'channel': name, 'source': src, 'problems': sorted({p[1] for p in sort_reads})[:3]})
-                problems = [p for p in problems if p[0] != 'unguarded-read:pub']
-        texts = sorted({p[1] for p in problems})
-        if texts:
-            if finding:
-                res.known_hits.setdefault(finding, {'channel': name, 'source': src, 'problems': texts[:3]})
-            else:
-                res.oracle_fail.append({'case': {'channel': name, 'source': src}, 'what': '; '.join(texts[:4])})
-        elif finding:
-            res.count('finding_not_reproduced=' + finding)
+        problems += read_problems(runs[0][1])
+        judge(res, name, src, finding, problems)
+
+
+def part_d(res, r, tier):
+    """overlapping renderings of one compiled template under different guards, at every event of the guarded rendering"""
+    for name, (src, build, finding) in channels().items():
+        base, base_log, _d, _di = render_channel(name, src, build, MARK_A, MARK_B)
+        # a fresh, uninterrupted template object says what the guarded caller must get; part A judged that rendering
+        points = [(k, how, who) for k in range(len(base_log)) for how in ('nested', 'thread') for who in ('plain', 'other-guard')]
+        if len(points) > 48:
+            # long renderings (trees): every event still gets one kind of interruption, the kinds rotate
+            kinds = [(h, w) for h in ('nested', 'thread') for w in ('plain', 'other-guard')]
+            off = r.randrange(4)
+            points = [(k,) + kinds[(k + off) % 4] for k in range(len(base_log))]
+        for k, how, who in points:
+            mode = ('overlap', k, how, who)
+            out, log, denied, denied_items = render_channel(name, src, build, MARK_A, MARK_B, mode)
+            res.evaluations += 1
+            res.count('overlap=%s/%s' % (how, who))
+            if log.fired:
+                res.nt(('overlap', name, k, how, who))
+            problems = []
+            if out != base:
+                problems.append(('overlap', 'the guarded rendering gives %r, a fresh template object that nobody interrupts gives %r' % (out, base)))
+            if 'MARKER' in out:
+                problems.append(('leak', 'refused data reached the output: %r' % (out,)))
+            problems += read_problems(log)
+            judge(res, name + mode_text(mode), src, finding, problems, {'mode': list(mode)})
+
+
+# --------------------------------------------------------------------------- E: guarded collections against a reference
+
+def gen_in_case(r):
+    kind = r.choice(['obj', 'obj', 'obj', 'str', 'pair', 'map'])
+    n = r.randint(2, 7)
+    keys = r.sample(range(50), n)
+    refused = sorted(r.sample(range(n), r.randint(1, min(3, n))))
+    c = {'family': 'in', 'kind': kind, 'keys': keys, 'refused': refused, 'skip': r.random() < 0.6,
+         'sort': r.choice([None, 'sort=key', 'sort_expr="\'key\'"']) if kind in ('obj', 'map') else None,
+         'reverse': r.choice([None, None, 'reverse', 'reverse_expr="1"', 'reverse_expr="0"']),
+         'batch': r.choice([None, None, (r.randint(1, n), r.randint(1, n))]),
+         'extra': r.choice(['', '', 'prefix=it'])}
+    opts = [c['sort'], c['reverse'], c['extra'] or None, 'mapping' if kind == 'map' else None]
+    if c['batch']:
+        # the window is start … start+size-1 (no orphans folded in); overlap only matters for the neighbouring batches
+        opts += ['start=%d size=%d orphan=0' % c['batch']] + r.choice([[], [], ['overlap=1']])
+    if c['skip']:
+        opts += ['skip_unauthorized']
+    opts = [o for o in opts if o]
+    r.shuffle(opts)
+    body = {'obj': '[<dtml-var label>]', 'map': '[<dtml-var label>]', 'str': '[<dtml-var sequence-item>]', 'pair': '[<dtml-var sequence-key>=<dtml-var sequence-item>]'}[kind]
+    c['source'] = '<dtml-in l %s>%s</dtml-in>' % (' '.join(opts), body)
+    return c
+
+
+def in_build(c):
+    def shown(i, m):
+        """(item for the template, text the body prints for it, identity for the item guard)"""
+        bad = i in c['refused']
+        if c['kind'] == 'obj':
+            return None, ('%s-%d' % (m, i)) if bad else 'L%d' % i, i + 1
+        if c['kind'] == 'map':
+            label = ('%s-%d' % (m, i)) if bad else 'L%d' % i
+            return {'ident': i, 'label': label, 'key': c['keys'][i]}, label, ('map', i)
+        if c['kind'] == 'str':
+            v = ('%s-%d' % (m, i)) if bad else 's%d' % i
+            return v, v, ('str', v)
+        k, v = (('%s-k%d' % (m, i)) if bad else 'k%d' % i), (('%s-v%d' % (m, i)) if bad else 'v%d' % i)
+        return (k, v), '%s=%s' % (k, v), ('pair', k)
+
+    def build(log, m, n):
+        items, denied_items = [], set()
+        for i in range(len(c['keys'])):
+            v, text, ident = shown(i, m)
+            if c['kind'] == 'obj':
+                v = Node(i + 1, log, text, key=c['keys'][i])
+            items.append(v)
+            if i in c['refused']:
+                denied_items.add(ident)
+        return None, {'l': items}, set(), denied_items
+    return build, shown
+
+
+def in_expected(c):
+    """the documented meaning of the options: sort, then reverse, then the batch window; of that window the items the guard
+    allows, in order — or Unauthorized when one is refused and skip_unauthorized is not given"""
+    _b, shown = in_build(c)
+    order = list(range(len(c['keys'])))
+    if c['sort']:
+        order.sort(key=lambda i: c['keys'][i])
+    if c['reverse'] in ('reverse', 'reverse_expr="1"'):
+        order.reverse()
+    if c['batch']:
+        start, size = c['batch']
+        order = order[start - 1:start - 1 + size]
+    if not c['skip'] and any(i in c['refused'] for i in order):
+        return 'RAISED Unauthorized', False
+    return ''.join('[%s]' % shown(i, '')[1] for i in order if i not in c['refused']), False
+
+
+def gen_tree_case(r):
+    n = r.randint(3, 9)
+    parent, depth = {}, {0: 0}
+    for i in range(1, n + 1):
+        p = r.choice([q for q in range(i) if depth[q] < 3])
+        parent[i], depth[i] = p, depth[p] + 1
+    kids = {i: [j for j in range(1, n + 1) if parent[j] == i] for i in range(n + 1)}
+    for i in kids:
+        r.shuffle(kids[i])
+    keys = dict(zip(range(n + 1), r.sample(range(50), n + 1)))
+    refused = sorted(r.sample(range(1, n + 1), r.randint(1, min(3, n))))
+    state = r.choice(['default', 'expand_all', 'cookie', 'cookie'])
+    inner = [i for i in range(1, n + 1) if kids[i]]
+    opened = []
+    if state == 'cookie':
+        for i in inner:                     # a set of open nodes closed under "parent is open"
+            if (parent[i] == 0 or parent[i] in opened) and r.random() < 0.7:
+                opened.append(i)
+    elif state == 'expand_all':
+        opened = inner
+    c = {'family': 'tree', 'kids': {str(k): v for k, v in kids.items()}, 'keys': [keys[i] for i in range(n + 1)], 'refused': refused,
+         'state': state, 'open': opened, 'skip': r.random() < 0.65, 'sort': r.random() < 0.5, 'reverse': r.random() < 0.5,
+         'branches': r.choice(['', '', 'branches=kids', 'branches_expr="kids()"']), 'tuple': r.random() < 0.4,
+         'extra': r.sample(['assume_children=1', 'single', 'nowrap', 'urlparam="a=1"', 'id=tpId', 'url=tpId'], r.randint(0, 2))}
+    opts = [c['branches'], 'sort=key' if c['sort'] else '', 'reverse' if c['reverse'] else '', 'skip_unauthorized' if c['skip'] else ''] + c['extra']
+    opts = [o for o in opts if o]
+    r.shuffle(opts)
+    c['source'] = '<dtml-tree o %s>{<dtml-var label>}</dtml-tree>' % ' '.join(opts)
+    return c
+
+
+def tree_build(c):
+    kids = {int(k): v for k, v in c['kids'].items()}
+
+    def build(log, m, n):
+        def node(i):
+            label = ('%s-%d' % (m, i)) if i in c['refused'] else 'L%d' % i
+            return Node(i + 100, log, label, key=c['keys'][i], kids=[node(j) for j in kids[i]], container=tuple if c['tuple'] else list)
+        ns = tree_ns(o=node(0))
+        if c['state'] == 'expand_all':
+            ns['expand_all'] = 1
+        elif c['state'] == 'cookie':
+            from TreeDisplay.TreeTag import encode_seq
+
+            def st(i):
+                return ['n%d' % (i + 100), [st(j) for j in kids[i] if j in c['open']]]
+            ns['tree-s'] = encode_seq([st(0)])
+        return None, ns, set(), {i + 100 for i in c['refused']}
+    return build
+
+
+def tree_expected(c):
+    """pre-order over the open nodes; the branches of a node are the ones the guard allows (skip_unauthorized), sorted by the
+    key if asked, reversed if asked.  Without skip_unauthorized a refused branch of an open node (its branches are displayed)
+    must raise; a refused branch of a displayed but closed node may (the tag looks at the branches to draw the +) or may not
+    (assume_children) raise.  -> (text, may_raise)"""
+    kids = {int(k): v for k, v in c['kids'].items()}
+    must, may, out = [], [], []
+
+    def visit(i):
+        if i:
+            out.append('L%d' % i)
+        bad = [j for j in kids[i] if j in c['refused']]
+        is_open = i == 0 or i in c['open']
+        if bad and not c['skip']:
+            (must if is_open else may).append(i)
+        if is_open:
+            br = [j for j in kids[i] if j not in c['refused']]
+            if c['sort']:
+                br.sort(key=lambda j: c['keys'][j])
+            if c['reverse']:
+                br.reverse()
+            for j in br:
+                visit(j)
+    visit(0)
+    if must:
+        return 'RAISED Unauthorized', False
+    return ''.join('{%s}' % x for x in out), bool(may)
+
+
+N_COLLECTIONS = {'quick': 150, 'thorough': 3000}      # per family
+
+
+def part_e(res, r, tier):
+    n = N_COLLECTIONS[tier if tier in N_COLLECTIONS else 'quick']
+    for idx in range(2 * n):
+        c = gen_in_case(r) if idx % 2 else gen_tree_case(r)
+        if c['family'] == 'in':
+            build, expected = in_build(c)[0], in_expected(c)
+        else:
+            build, expected = tree_build(c), tree_expected(c)
+        want, may_raise = expected
+        res.count('collection=%s%s%s' % (c['family'], '/skip' if c['skip'] else '/strict', '/raises' if want.startswith('RAISED') else ''))
+        res.count('collection_items=%s' % (c.get('kind') or 'tree nodes'))
+        # which events the rendering has: the interruption points
+        _o, base_log, _d, _di = render_channel('', c['source'], build, MARK_A, MARK_B)
+        modes = [None, r.choice(['warm', 'warm-other'])]
+        if base_log:
+            modes.append(('overlap', r.randrange(len(base_log)), r.choice(['nested', 'thread']), r.choice(['plain', 'other-guard'])))
+        for mode in modes:
+            problems = []
+            for m in (MARK_A, MARK_B) if mode is None else (MARK_B,):
+                out, log, denied, denied_items = render_channel('', c['source'], build, m, m, mode)
+                res.evaluations += 1
+                got = out if out.startswith('RAISED') else ''.join(re.findall(r'\{.*?\}', out) if c['family'] == 'tree' else [out])
+                if got != want and not (may_raise and got == 'RAISED Unauthorized'):
+                    problems.append('displayed %r, the reference (allowed items only, in the order asked for) is %r' % (got, want))
+                if 'MARKER' in out:
+                    problems.append('an item the guard refuses reached the output: %r' % (got,))
+                problems += [p[1] for p in read_problems(log)]
+                for ev in log:
+                    if ev[0] == 'read' and ev[2] == 'label' and isinstance(ev[1], int) and ev[1] in denied_items:
+                        problems.append('the label of the refused item %d was read for the author' % ev[1])
+            if any(i in c['refused'] for i in range(len(c['keys']))):
+                res.nt(('collection', c['source'], json.dumps(c.get('kids', c['keys'])), tuple(c['refused']), str(mode)))
+            if problems:
+                res.oracle_fail.append({'case': dict(c, mode=list(mode) if isinstance(mode, tuple) else mode),
+                                        'what': c['source'] + mode_text(mode) + ': ' + '; '.join(sorted(set(problems))[:4])})
 
 
 def part_b(res):
@@ -332,14 +701,32 @@ def part_c(res, r, n, have_driver):
 
 def run(res, tier, have_driver):
     r = common.rng('C05')
-    res.rule = ('A: 37 channels (incl. sorted / reversed / batched loops) x {fresh, after an unguarded rendering of the same compiled template} x 4 marker assignments (incl. empty / order-changing markers) with spied client objects and a '
-                'recording guard; B: underscore names through 4 lookup forms x {plain, guarded} class and 5 restricted expressions; '
+    res.rule = ('A: %d channels (incl. sorted / reversed / batched loops and dtml-tree with sort / reverse / branches= / branches_expr / '
+                'assume_children / expand_all, branches as list or tuple, refused branches at positions the rearrangement moves) x {fresh, '
+                'after an unguarded rendering of the same compiled template, after a rendering under a guard that allows everything} x 4 '
+                'marker assignments (incl. empty / order-changing markers) with spied client objects and a recording guard; '
+                'D: every channel again with a second rendering of the SAME compiled template object for another caller (no guards / a '
+                'guard that allows everything) started at every event of the guarded rendering (guard call, item guard call, spied read), '
+                'as a nested call and from another thread: output == that of a fresh uninterrupted template object, no marker, every read '
+                'asked; E: %d random guarded collections vs an independent reference (dtml-in over objects / strings / (key, value) pairs '
+                'with sort, sort_expr, reverse, reverse_expr, start/size/overlap windows, prefix; dtml-tree over random shapes with sort, '
+                'reverse, branches=, branches_expr, tuple branches, assume_children, single, nowrap, urlparam, id=, url=, open nodes from '
+                'the tree-s cookie / expand_all / default; 1-3 refused items, with and without skip_unauthorized): displayed sequence == '
+                'allowed items in the order asked for, Unauthorized where a displayed item is refused; each also after a rendering in '
+                'another guard context and interrupted by one at a random event; '
+                'B: underscore names through 4 lookup forms x {plain, guarded} class and 5 restricted expressions; '
                 'C: random programs (all block tags, nesting <= 3) with the guard installed, random refused (object, attribute) pairs, '
                 'refused items and skip_unauthorized: results + call traces + ordered guard log vs the model; non-trivial = '
-                'channels / programs in which a refusal actually happened')
+                'channels / interruption points that were reached / collections with a refused item / programs in which a refusal '
+                'actually happened' % (len(channels()), 2 * N_COLLECTIONS[tier if tier in N_COLLECTIONS else 'quick']))
     part_a(res)
     part_b(res)
+    part_d(res, common.rng('C05/D'), tier)
+    part_e(res, common.rng('C05/E'), tier)
     part_c(res, r, 500 if tier == 'quick' else 8000, have_driver)
+    res.partial.append('dtml-tree reads ids / urls (tpId, tpURL) and its sort= key with plain getattr, and expand_all walks the branches without '
+                       'the item guard (ids of refused nodes end up in the tree-s cookie): the tree nodes of parts A / D / E keep id and sort key '
+                       'out of the spied attributes, so these reads are not judged')
     res.partial.append('global non-interference of a whole rendering is decided by the marker oracle; the Lean side proves the guard '
                        'discipline of each read site (instance lookup, expression attribute, dtml-in item) and local '
                        'non-interference; the unguarded channels are known findings')
@@ -351,6 +738,8 @@ def search_more(res, tier):
     res2 = common.Result('C05')
     part_a(res2)
     part_b(res2)
+    part_d(res2, common.rng('C05/D'), tier)
+    part_e(res2, common.rng('C05/E'), tier)
     return res2.oracle_fail
 
 
